@@ -33,6 +33,10 @@ func guardName(cond ssa.Value) (string, []string, bool) {
 				return l + op + y.Value.ExactString(), fieldsOf(l), true
 			}
 		}
+		// identity guard: an index entry compared with the id/object being handled (idx[k] == id)
+		if strings.HasPrefix(l, "elem(") && (x.Op == token.EQL || x.Op == token.NEQ) {
+			return l + op + "·", fieldsOf(l), true
+		}
 		return "", nil, false
 	case *ssa.Extract:
 		// v, ok := m[k]
